@@ -223,7 +223,7 @@ def _run_case(case, want_log=False):
                 log.append([len(case["ops"]), "finish", "VIOLATION", v.invariant, v.cause_key])
     except HarnessError:
         raise
-    trace_digest = digest([_norm_trace(t) for t in CTX.fs.trace])
+    trace_digest = digest([_norm_trace(t) for t in CTX.fs.trace] + [list(t) for t in CTX.net.trace])
     res = {
         "violation": vrec,
         "digest": digest([log, trace_digest]),
